@@ -744,15 +744,20 @@ impl CircuitBuilder {
     ) -> CachedPanicResult {
         let result = self.mux_uncached_panic(condition, t, f);
         let mut cache = HashMap::new();
-        for k in cache_t.keys().chain(cache_f.keys()) {
-            match (cache_t.get(k), cache_f.get(k)) {
-                // a condition that was checked on only one of the two paths is not part of the
-                // panic record if the other path was taken, so it must be checked again:
-                (None, None) | (None, Some(_)) | (Some(_), None) => {}
-                (Some(t), Some(f)) => {
-                    cache.insert(*k, self.mux_uncached_panic(condition, t, f));
-                }
-            }
+        // A condition that was checked on only one of the two paths is not part of the panic
+        // record if the other path was taken, so it must be checked again; the conditions that
+        // were checked on both paths are merged in the order of their wires (the gates of these
+        // muxes enter the gate cache and can be re-used by later exprs, so their order must not
+        // depend on the hash order of the caches):
+        let mut checked_on_both_paths: Vec<_> = cache_t
+            .keys()
+            .filter(|k| cache_f.contains_key(k))
+            .copied()
+            .collect();
+        checked_on_both_paths.sort_unstable();
+        for k in checked_on_both_paths {
+            let muxed = self.mux_uncached_panic(condition, &cache_t[&k], &cache_f[&k]);
+            cache.insert(k, muxed);
         }
         CachedPanicResult { result, cache }
     }
